@@ -166,6 +166,32 @@ Theorem C16_alias_refuted_without_copy :
   snd (tspec_run fl (mkS frame [] 100) alias_witness) = [TSet; TVal [(1, 10); (2, 20)]; TNone; TVal [(1, 10); (2, 20)]].
 Proof. vm_compute. repeat split; reflexivity. Qed.
 
+(* T16.fault (partial) — a load that fails (read fault in _load_file) answers with the error, changes nothing but adds
+   one entry holding the failed future and a size never added to current_memory_usage: the accounting over the HELD
+   entries is exactly as before.  [_partial: a step-level statement from any state of the invariant; histories that go
+   on after a failed load are covered by the correspondence only, and see K5 for what happens to the SAME key] *)
+Theorem C16_failed_load_effect_partial :
+  forall (C : Type) (clen cmem : C -> Z) (dirsize : Z) (K : list name) (s : cache C) n t ch e c,
+  Inv C cmem K s -> lookup C (c_disk C s) n = Some (File c) -> clen c <= c_max C s -> assoc (c_entries C s) n = None ->
+  let s' := fst (get_file_fault C clen cmem dirsize true true s n t ch e) in
+  snd (get_file_fault C clen cmem dirsize true true s n t ch e) = inr e /\
+  c_disk C s' = c_disk C s /\ c_heap C s' = c_heap C s /\ c_mem C s' = c_mem C s /\ c_max C s' = c_max C s /\
+  c_entries C s' = c_entries C s ++ [(n, mkE C false (clen c) (FErr e))] /\
+  held C (c_entries C s') = c_entries C s /\ c_mem C s' = sumb C (held C (c_entries C s')) /\ 0 <= c_mem C s' <= c_max C s'.
+Proof. exact failed_load_effect. Qed.
+Print Assumptions C16_failed_load_effect_partial.
+
+(* K5 (known finding C16-failed-load-entry): the entry of a failed load stays.  Later gets of the SAME key re-raise the
+   remembered error although the file is readable again, and a later set (or unload, or eviction after such a get) of
+   that key subtracts the size that was never added: current_memory_usage 0 while the cache holds 5 bytes. *)
+Definition fault_witness : list (op Z) :=
+  [OSet [1] 5 1 []; OReopen 0; OGetFault [1] 2 [] IOErr; OGet [1] 3 []; OSet [1] 5 4 []].
+Theorem C16_failed_load_same_key_refuted :
+  snd (kvs_run Z zid zid 4096 true true true (open_cache Z [] 0) fault_witness) = [RSet; RNone; RErr IOErr; RErr IOErr; RSet] /\
+  (let s := fst (kvs_run Z zid zid 4096 true true true (open_cache Z [] 0) fault_witness) in
+   c_mem Z s = 0 /\ sumb Z (held Z (c_entries Z s)) = 5).
+Proof. vm_compute. repeat split; reflexivity. Qed.
+
 (* _write_file opens exactly the file of the key it writes and renames/removes nothing (regenerated) *)
 Theorem C16_write_file_touches_only_its_key : write_file_opens_target_only = true.
 Proof. exact eq_refl. Qed.
